@@ -338,7 +338,7 @@ pub fn c06(tier: Tier) -> ! {
                         if tier == Tier::Quick && (pi + n + steps as usize) % 2 == 1 {
                             continue;
                         }
-                        for spec in [ProbeSpec::standard(n), ProbeSpec::interior(n), ProbeSpec::standard(n).raw(), ProbeSpec::outside(n), ProbeSpec::near_bound(n), ProbeSpec::interior(n).aliased(), ProbeSpec::inverted(n)].iter() {
+                        for spec in [ProbeSpec::standard(n), ProbeSpec::interior(n), ProbeSpec::standard(n).raw(), ProbeSpec::outside(n), ProbeSpec::near_bound(n), ProbeSpec::interior(n).aliased(), ProbeSpec::inverted(n), ProbeSpec::near_zero(n)].iter() {
                             // (moves below machine epsilon only from starts where they are representable)
                             if ms == 2e-16 && spec.start != ProbeSpec::near_bound(n).start && spec.start != ProbeSpec::interior(n).start {
                                 continue;
@@ -680,7 +680,7 @@ pub fn c05_jobs(tier: Tier) -> Vec<Job> {
     let mut jobs = vec![];
     let fins = [None, Some(0.), Some(1e-3), Some(1.)];
     // ratios above one (over-cooling) and below zero (heating, up to an absurd factor) are legal
-    let ratios = [None, Some(0.), Some(0.1), Some(1.), Some(2.), Some(-3.), Some(-1e200), Some(f64::NEG_INFINITY), Some(f64::INFINITY)];
+    let ratios = [None, Some(0.), Some(0.1), Some(1.), Some(2.), Some(-3.), Some(-1e200), Some(f64::NEG_INFINITY), Some(f64::INFINITY), Some(f64::NAN)];
     let mss = [0.01, 0.5, 1.];
     let convs = [None, Some(0.), Some(1e-3)];
     let mut k = 0usize;
@@ -749,6 +749,33 @@ pub fn c05(tier: Tier) -> ! {
     };
     let t = run_jobs(&mut run, &jobs, &judge);
     setter_orders(&mut run, &pick_for_setter_orders(&c05_jobs(tier), tier.pick(8, 32)), &judge);
+    // a proposal worse by 1, 2, 8 or 1000 units in the last place, met by the smallest possible
+    // acceptance draw (0): at a zero starting temperature it is refused like any worse proposal
+    let mut ulp_runs = 0u64;
+    for &(steps, inner) in [(4u64, 4u64), (6, 2)].iter() {
+        for at in 1..=steps as usize {
+            for &k in [1u64, 2, 8, 1000].iter() {
+                for &(fin, ratio) in [(None, Some(0.)), (Some(1e-3), None), (None, Some(0.5))].iter() {
+                    let cfg = Cfg { steps, inner, kt_start: 0., kt_finish: fin, kt_ratio: ratio, max_step: 0.01, convergence: None, history: 0 };
+                    let spec = ProbeSpec::interior(2);
+                    let script: Vec<StepScript> = (1..=steps as usize)
+                        .map(|s| {
+                            let prev = if s == 1 { spec.s0 } else { (s - 1) as f64 };
+                            let worse = if prev == 0. { -(k as f64) * f64::from_bits(1) } else { f64::from_bits(prev.to_bits() - k) };
+                            StepScript { index: (s - 1) % 2, q: 0.75, thr_k: if s == at { 0 } else { thr_k_of(0.5) }, answer: Some(if s == at { worse } else if s > at { (s - 1) as f64 } else { s as f64 }) }
+                        })
+                        .collect();
+                    let obs = run_script(&cfg, &spec, &script);
+                    let an = analyse(&cfg, &obs, None);
+                    ulp_runs += 1;
+                    for (_, what) in judge(&cfg, &spec, &script, &obs, &an) {
+                        run.fail(None, &format!("a proposal worse by {} ulp at step {}: {}", k, at, what), case_json(&cfg, &spec, &script));
+                    }
+                }
+            }
+        }
+    }
+    run.set("ulp_worse_runs", ulp_runs);
     // real hard and LJ states: every stage of a chained-stage search re-run as a pure hill climb
     let sweep_cfg = crate::rsx::Sweep { depth: tier.pick(2, 4), cap: tier.pick(400, 20_000), dense_steps: 300, shapes: crate::rsx::start_shapes(tier) };
     let (rf, rstarts) = crate::rsx::sweep(&sweep_cfg, &crate::rsx::Wants { c01: false, c04: false, c05: true, c08: false, c19: false });
@@ -1266,7 +1293,7 @@ pub fn c20_library(run: &mut Run, tier: Tier) -> LibC20 {
     calibrate();
     let steps_v: Vec<u64> = vec![0, 1, 2, 3, 4, 5, 6, 7, 8, 12];
     let inner_v: Vec<u64> = vec![0, 1, 2, 3, 4, 5, 1000];
-    let convs: Vec<Option<f64>> = vec![None, Some(-1.), Some(0.), Some(1e-3), Some(f64::INFINITY)];
+    let convs: Vec<Option<f64>> = vec![None, Some(-1.), Some(0.), Some(1e-3), Some(f64::INFINITY), Some(f64::NAN)];
     let mut jobs = vec![];
     let mut k = 0usize;
     for &steps in steps_v.iter() {
